@@ -45,8 +45,8 @@ LoopT == { <<T("addi", "t3", "t3", "zero", -1, 0), T("bnez", "zero", "t3", "zero
 
 Templates == CASE Alphabet = "full" -> AluT \cup LoadT \cup StoreT \cup CtlT
                [] Alphabet = "alu" -> AluT \cup CtlT
-               \* addi a0, a0, 0 makes the base register of the next access a value that is still in flight (forwarded)
-               [] Alphabet = "mem" -> LoadT \cup StoreT \cup {T("li", "t0", "zero", "zero", 5, 0), T("addi", "t1", "t0", "zero", -3, 0), T("addi", "a0", "a0", "zero", 0, 0)}
+               \* addi a0, a0, 4 makes the base register of the next access a value that is still in flight (forwarded)
+               [] Alphabet = "mem" -> LoadT \cup StoreT \cup {T("li", "t0", "zero", "zero", 5, 0), T("addi", "t1", "t0", "zero", -3, 0), T("addi", "a0", "a0", "zero", 4, 0)}
                [] Alphabet = "ctl" -> CtlT \cup {T("li", "t0", "zero", "zero", 5, 0), T("addi", "t0", "t0", "zero", 1, 0), T("lw", "t0", "a0", "zero", 0, 0), T("sw", "zero", "a0", "t1", 4, 0)}
                [] Alphabet = "loop" -> AluT \cup LoadT \cup StoreT \cup CtlT
 
